@@ -409,7 +409,7 @@ def C06(ctx):
 
 def C17(ctx):
     """Content addresses are canonical, order-independent and injective up to SHA-256."""
-    ctx.mc("enc", "MC_Encodings.tla", "MC_Encodings.cfg", workers=8, timeout=3000)
+    ctx.mc("enc", "MC_Encodings.tla", "MC_Encodings_thorough.cfg" if ctx.thorough else "MC_Encodings.cfg", workers=8, timeout=3000)
     binary = vrun.cargo_build("dev")
     out = os.path.join(ctx.work, "addr")
     s_ = vrun.vh(binary, "codecs", out, ctx.seed, ctx.tier, extra={"mode": "addr-gen"})
@@ -443,7 +443,7 @@ def C17(ctx):
 
 def C18(ctx):
     """Wire, text and serde codecs round-trip."""
-    ctx.mc("enc", "MC_Encodings.tla", "MC_Encodings.cfg", workers=8, timeout=3000)
+    ctx.mc("enc", "MC_Encodings.tla", "MC_Encodings_thorough.cfg" if ctx.thorough else "MC_Encodings.cfg", workers=8, timeout=3000)
     _codecs_wire(ctx, modes=("wire", "serde"))
     ctx.cov["rule"] = ("exhaustive predicates of <=2 nodes / <=2 edges over edge_start {0,1,2,leaf}, random predicates "
                        "(<=40 nodes, out-of-range starts), sizes 999..1001, mutation lists, 8-word conversion vectors "
@@ -562,8 +562,8 @@ def C12(ctx):
 
 def C19(ctx):
     """Contract signatures bind the signer to the content."""
-    ctx.mc("signing", "MC_Signing.tla", "MC_Signing.cfg", workers=4)
-    ctx.mc("enc", "MC_Encodings.tla", "MC_Encodings.cfg", workers=8, timeout=3000)   # injectivity of the signed pre-image
+    ctx.mc("signing", "MC_Signing.tla", "MC_Signing_thorough.cfg" if ctx.thorough else "MC_Signing.cfg", workers=4, timeout=3000)
+    ctx.mc("enc", "MC_Encodings.tla", "MC_Encodings_thorough.cfg" if ctx.thorough else "MC_Encodings.cfg", workers=8, timeout=3000)   # injectivity of the signed pre-image
     binary = vrun.cargo_build("dev")
     s_ = vrun.vh(binary, "sign", os.path.join(ctx.work, "sign"), ctx.seed, ctx.tier)
     _merge_samples(ctx, s_, 3)
@@ -580,7 +580,8 @@ def C19(ctx):
 
 def C20(ctx):
     """The lock serialises closures."""
-    ctx.mc("lock", "MC_Lock.tla", "MC_Lock.cfg", workers=8)
+    # quick: 3 threads x 2 locks x 2 calls (43 k states); thorough: 4 threads (2.4 M states), safety + liveness
+    ctx.mc("lock", "MC_Lock.tla", "MC_Lock_thorough.cfg" if ctx.thorough else "MC_Lock.cfg", workers=8, timeout=3600)
     # the properties are not vacuous: without exclusion TLC finds overlapping closures
     r = vrun.tlc_mc("C20_broken", "MC_Lock.tla", "MC_Lock_broken.cfg", workers=4)
     ctx.cov["mc"].append({"model": "MC_Lock.tla/MC_Lock_broken.cfg (Exclusive = FALSE)", "result": r["invariant"] or "no violation",
